@@ -409,4 +409,47 @@ theorem runH_no_writers (pf : PatchFn) (ops : List Op) :
     have : retrySteps = 3 + 1 := rfl
     simp [Spec.runH, Spec.run, this, effectH_no_writers, ih]
 
+/-! ### the hook run -/
+
+theorem onHookError_withRep (ss : Sub) (r : NumRep) (ops : List Op) :
+    onHookError ss (ops.map (Op.withRep r)) = (onHookError ss ops).map (Op.withRep r) := by
+  induction ops with
+  | nil => rfl
+  | cons op rest ih =>
+    have h : (op.withRep r).onHookError ss = op.onHookError ss := by
+      cases op with
+      | create ign upd src => cases src <;> rfl
+      | delete p k g s => rfl
+      | patch kind k g s im ihe b => rfl
+    simp only [onHookError] at ih ⊢
+    simp only [List.map_cons, List.filter_cons, h]
+    split <;> simp [ih]
+
+/-! ### files of overlapping runs: a run's file is touched by that run only -/
+
+theorem frun_own (path : Nat → Path) (hinj : ∀ a b, path a = path b → a = b) (r : Nat)
+    (sched : List (Nat × FStep)) :
+    ∀ s s' : FState, aget s.files (path r) = aget s'.files (path r) → aget s.got r = aget s'.got r →
+      aget (frun path sched s).files (path r) =
+        aget (frun path (sched.filter (fun e => e.1 == r)) s').files (path r) ∧
+      aget (frun path sched s).got r = aget (frun path (sched.filter (fun e => e.1 == r)) s').got r := by
+  induction sched with
+  | nil => intro s s' hf hg; exact ⟨hf, hg⟩
+  | cons e rest ih =>
+    obtain ⟨q, st⟩ := e
+    intro s s' hf hg
+    by_cases hq : q = r
+    · subst hq
+      simp only [List.filter_cons, beq_self_eq_true, ↓reduceIte, frun]
+      apply ih
+      · cases st <;> simp [fstep, aget_aset_same, aget_aerase_same, hf]
+      · cases st <;> simp [fstep, aget_aset_same, hf, hg]
+    · have hne : (q == r) = false := by simp [hq]
+      simp only [List.filter_cons, hne, frun]
+      have hp : path r ≠ path q := fun e => hq (hinj _ _ e).symm
+      have hr : r ≠ q := fun e => hq e.symm
+      apply ih
+      · cases st <;> simp [fstep, aget_aset_other _ _ _ _ hp, aget_aerase_other _ _ _ hp, hf]
+      · cases st <;> simp [fstep, aget_aset_other _ _ _ _ hr, hg]
+
 end ShellOp.Patch
